@@ -26,6 +26,7 @@ func init() {
 	}
 	add(&quick, 0, 4, 0, 3)
 	add(&quick, 2, 4, 0, 2) // a streamed reader on a queued channel: every queued chunk must still be intact when it is sent
+	add(&quick, 2, 1, 0, 65537) // a vectored message above the largest pooled size next to a small one on a queued channel
 	add(&quick, 0, 9, 0, 1025)
 	add(&quick, 2, 10, 0, 1025)
 	add(&thorough, 2, 9, 9, 1025)
